@@ -276,6 +276,109 @@ def _eval_guard(guards, lat, lon):
     return True
 
 
+# ---- undeclared state ------------------------------------------------------------------------
+CARRIED = {'c', 'cd', 'date', 'date_dec', 'epoch', 'model', 'modeldate', 'wmm_filename', 'degree', 'latitude', 'longitude',
+           'height', 'frame', 'X', 'Y', 'Z', 'H', 'F', 'I', 'D', 'GV'}            # the state the object model carries (or constants of it)
+SCRATCH = {'k', 'P', 'dP', 'sp', 'cp', 'gh'}                                      # rebuilt from scratch inside every query
+DYNAMIC_WRITES = {"self.__dict__.update(dict.fromkeys(['X', 'Y', 'Z', 'H', 'F', 'I', 'D', 'GV']))": (),
+                  "self.__dict__.update(self.get_properties(self.wmm_filename))": ()}
+OK_DECORATORS = {'property', 'staticmethod', 'classmethod'}
+MUTABLE_CALLS = {'dict', 'list', 'set', 'defaultdict', 'OrderedDict', 'Counter', 'deque', 'WeakKeyDictionary', 'WeakValueDictionary'}
+
+
+def _str_const(n):
+    return n.value if isinstance(n, ast.Constant) and isinstance(n.value, str) else None
+
+
+def _mutable_value(v):
+    if isinstance(v, (ast.Dict, ast.List, ast.Set, ast.ListComp, ast.DictComp, ast.SetComp)):
+        return True
+    if isinstance(v, ast.Call):
+        f = v.func
+        name = f.id if isinstance(f, ast.Name) else f.attr if isinstance(f, ast.Attribute) else ''
+        return name in MUTABLE_CALLS
+    return False
+
+
+def hidden_state(tree):
+    """every way the class can remember something the object model does not carry: instance attributes outside the declared
+    sets that some method/property reads without having just written them, dynamic attribute writes, class-level and
+    module-level mutable state, memoising decorators, mutable default arguments, `global`.  -> list of descriptions"""
+    out = []
+    cls = _cls(tree)
+    M = _methods(cls)
+    declared = CARRIED | SCRATCH | set(M)
+    for n in cls.body:
+        if isinstance(n, ast.FunctionDef):
+            for d in n.decorator_list:
+                nm = d.id if isinstance(d, ast.Name) else (d.attr if isinstance(d, ast.Attribute) and d.attr in ('setter', 'getter', 'deleter') else ast.unparse(d))
+                if nm not in OK_DECORATORS | {'setter', 'getter', 'deleter'}:
+                    out.append(f'decorator @{ast.unparse(d)} on {n.name}')
+        elif isinstance(n, ast.Expr) and isinstance(n.value, ast.Constant):
+            pass
+        else:
+            out.append(f'class-level statement: {ast.unparse(n)[:60]}')
+    for n in tree.body:
+        if isinstance(n, (ast.Assign, ast.AnnAssign, ast.AugAssign)) and _mutable_value(getattr(n, 'value', None)):
+            out.append(f'module-level mutable object: {ast.unparse(n)[:60]}')
+        if isinstance(n, ast.FunctionDef) and n.decorator_list:
+            out.append(f'decorator on module function {n.name}: {ast.unparse(n.decorator_list[0])}')
+    for fn in [x for x in ast.walk(tree) if isinstance(x, (ast.FunctionDef, ast.Lambda))]:
+        a = fn.args
+        for dflt in list(a.defaults) + [d for d in a.kw_defaults if d is not None]:
+            if _mutable_value(dflt):
+                out.append(f'mutable default argument in {getattr(fn, "name", "<lambda>")}: {ast.unparse(dflt)[:40]}')
+        for x in ast.walk(fn) if isinstance(fn, ast.FunctionDef) else []:
+            if isinstance(x, (ast.Global, ast.Nonlocal)):
+                out.append(f'{type(x).__name__.lower()} {", ".join(x.names)} in {fn.name}')
+    selfish = lambda n: isinstance(n, ast.Name) and n.id == 'self'
+    for name, fn in M.items():
+        top_stores = {}                 # attr -> line of an unconditional (top-level) store in this function
+        for st in fn.body:
+            if isinstance(st, (ast.Assign, ast.AnnAssign)):
+                for t in (st.targets if isinstance(st, ast.Assign) else [st.target]):
+                    for x in (t.elts if isinstance(t, ast.Tuple) else [t]):
+                        if _is_self_attr(x):
+                            top_stores.setdefault(x.attr, st.lineno)
+        for x in ast.walk(fn):
+            # dynamic / indirect attribute traffic
+            if isinstance(x, ast.Call):
+                f = x.func
+                fname = f.id if isinstance(f, ast.Name) else None
+                if fname in ('setattr', 'delattr') and x.args and selfish(x.args[0]):
+                    k = _str_const(x.args[1]) if len(x.args) > 1 else None
+                    if k is None or k not in declared:
+                        out.append(f'{name}: {ast.unparse(x)[:60]}')
+                if fname in ('getattr', 'hasattr') and x.args and selfish(x.args[0]):
+                    k = _str_const(x.args[1]) if len(x.args) > 1 else None
+                    if k is None or k not in declared:
+                        out.append(f'{name}: reads undeclared attribute through {ast.unparse(x)[:60]}')
+                if isinstance(f, ast.Attribute) and f.attr in ('update', 'setdefault', 'pop', '__setitem__') and \
+                        isinstance(f.value, ast.Attribute) and f.value.attr == '__dict__':
+                    if ast.unparse(x) not in DYNAMIC_WRITES:
+                        out.append(f'{name}: dynamic attribute write {ast.unparse(x)[:70]}')
+                if fname == 'vars' and x.args and selfish(x.args[0]):
+                    out.append(f'{name}: vars(self)')
+            if isinstance(x, ast.Subscript) and isinstance(x.value, ast.Attribute) and x.value.attr == '__dict__' and \
+                    isinstance(x.ctx, (ast.Store, ast.Del)):
+                k = _str_const(x.slice)
+                if k is None or k not in declared:
+                    out.append(f'{name}: {ast.unparse(x)[:60]} written')
+            # class attributes used as storage
+            if isinstance(x, ast.Attribute) and isinstance(x.ctx, (ast.Store, ast.Del)) and not selfish(x.value):
+                base = ast.unparse(x.value)
+                if base in (cls.name, 'type(self)', 'self.__class__', 'cls'):
+                    out.append(f'{name}: class attribute {ast.unparse(x)} written')
+            if isinstance(x, ast.Attribute) and isinstance(x.ctx, ast.Load) and isinstance(x.value, ast.Name) and x.value.id == cls.name \
+                    and x.attr not in M and not x.attr.startswith('__'):
+                out.append(f'{name}: class attribute {ast.unparse(x)} read')
+            # undeclared instance attributes that are read without having just been written unconditionally
+            if _is_self_attr(x) and x.attr not in declared and not (x.attr.startswith('__') and x.attr.endswith('__')):
+                if isinstance(x.ctx, ast.Load) and not (x.attr in top_stores and top_stores[x.attr] < x.lineno):
+                    out.append(f'{name}: reads undeclared attribute self.{x.attr}')
+    return sorted(set(out))
+
+
 def extract_facts(src=None):
     """-> dict of facts about the WMM class of the current working tree (raises ExtractError: fail closed)"""
     tree = ast.parse(src if src is not None else _src())
@@ -354,6 +457,8 @@ def extract_facts(src=None):
                                                                     and n.name == 'geodetic2spherical']
     zs = [t for fn in fns for t in _place_sensitive_tests(fn)]
     f['method_zero_branch'] = bool(zs)
+    f['hidden_state_src'] = hidden_state(tree)
+    f['no_hidden_state'] = not f['hidden_state_src']
     f['method_zero_branch_src'] = zs
     return f
 
@@ -372,7 +477,8 @@ def facts_v(f):
    constructor guard                 : {f['ctor_guard_src']}
    constructor passes date           : {f.get('ctor_date_src', '-')}
    magnetic_field default date       : {f['field_default_date_src']}
-   zero-sensitive branches           : {f['method_zero_branch_src']} *)
+   zero-sensitive branches           : {f['method_zero_branch_src']}
+   undeclared state                  : {f['hidden_state_src']} *)
 From AhrsModel Require Import C15_wmm_object.
 Definition C15_facts : facts := {{|
   reset_reloads := {_b(f['reset_reloads'])};
@@ -384,7 +490,8 @@ Definition C15_facts : facts := {{|
   ctor_guard_00 := {_b(g[0])}; ctor_guard_0x := {_b(g[1])}; ctor_guard_x0 := {_b(g[2])}; ctor_guard_xx := {_b(g[3])};
   ctor_date := {kind};
   method_zero_branch := {_b(f['method_zero_branch'])};
-  default_date_frozen := {_b(f['field_default_is_call'])} |}}.
+  default_date_frozen := {_b(f['field_default_is_call'])};
+  no_hidden_state := {_b(f['no_hidden_state'])} |}}.
 """
 
 
@@ -552,7 +659,7 @@ def pregen(ctx):
     STAGES = [['C15_elements.v', 'C15_object.v'], [s for s in second if s], ['C15.v']]
     ctx.say(f"[gen] C15facts.v: reload-before-scale with date={f['field_reloads_if_date']} date=None={f['field_reloads_if_none']} "
             f"(events {f['events_date']!r}/{f['events_none']!r}); ctor guard {f['ctor_guard_src']!r} -> {f['ctor_guard']}; "
-            f"ctor passes {f.get('ctor_date_src')!r}; default date {f['field_default_date_src']!r}; zero branches {f['method_zero_branch_src']}")
+            f"ctor passes {f.get('ctor_date_src')!r}; default date {f['field_default_date_src']!r}; zero branches {f['method_zero_branch_src']}; undeclared state {f['hidden_state_src']}")
 
 
 # =============================================================================================
@@ -577,9 +684,24 @@ def dval(spec):
     raise ValueError(k)
 
 
+class ReadersDisagree(Exception):
+    """the public readers of one object (attributes X..GV, the magnetic_elements dictionary, geodetic_vector) contradict each other"""
+
+
 def elements(w):
-    e = w.magnetic_elements
-    return None if e['X'] is None else [float(e[k]) for k in ELEMS]
+    """the object's current answer, read through EVERY public reader; they must show the same numbers"""
+    d = w.magnetic_elements
+    if sorted(d) != sorted(ELEMS):
+        raise ReadersDisagree(f'magnetic_elements has keys {sorted(d)}')
+    at = [getattr(w, k) for k in ELEMS]
+    di = [d[k] for k in ELEMS]
+    gv = list(w.geodetic_vector)
+    for name, a, b in [(k, x, y) for k, x, y in zip(ELEMS, at, di)] + [(f'geodetic_vector[{i}]', at[i], gv[i]) for i in range(3)]:
+        if (a is None) != (b is None) or (a is not None and not (float(a) == float(b) or (a != a and b != b))):
+            which = 'geodetic_vector' if name.startswith('geo') else 'magnetic_elements'
+            raise ReadersDisagree(f'{which}: {name} reads {b!r} but the attribute is {a!r} (frame {w.frame}, date_dec {w.date_dec}, '
+                                  f'place {w.latitude}, {w.longitude}, {w.height})')
+    return None if at[0] is None else [float(x) for x in at]
 
 
 _FIRST = {}      # (date, place, frame) -> the first answer a fresh object ever gave in this process
@@ -697,8 +819,10 @@ def _gen_session(rng):
         if u < 0.70:
             d = None if rng.random() < 0.4 else int(rng.integers(1, len(DATE_TABLE) + 1))
             calls.append(('field', int(rng.integers(0, np_)), d))
-        elif u < 0.85:
+        elif u < 0.80:
             calls.append(('reset', int(rng.integers(1, len(DATE_TABLE) + 1))))
+        elif u < 0.90:
+            calls.append(('frame', bool(rng.integers(0, 2))))
         else:
             calls.append(('denorm',))
     return ctor, calls
@@ -720,6 +844,8 @@ def _session_expr(ctor, calls):
             cs.append(f"XField {_xplace(c[1])} {_xopt(c[2])}")
         elif c[0] == 'reset':
             cs.append(f"XReset {c[1]}")
+        elif c[0] == 'frame':
+            cs.append(f"XSetFrame {'true' if c[1] else 'false'}")
         else:
             cs.append("XDenorm")
     return (f"xsession C15_facts {_xopt(ctor[0])} {_xplace(ctor[1])} {'true' if ctor[2] else 'false'} "
@@ -751,9 +877,15 @@ def _real_session(ctor, calls, cache):
             rows.append(obs(w.c is not prev))
         elif c[0] == 'reset':
             w.reset_coefficients(_tok_value(c[1], cache))
+            elements(w)                 # the readers must stay mutually consistent after every step
+            rows.append(None)
+        elif c[0] == 'frame':
+            w.frame = 'ENU' if c[1] else 'NED'
+            elements(w)
             rows.append(None)
         else:
             w.denormalize_coefficients(0.3)
+            elements(w)
             rows.append(None)
     return rows
 
@@ -805,7 +937,9 @@ def correspondence(ctx):
     n = ctx.n(60, 500)
     sessions = [((1, 0, False), [('field', 0, 1), ('field', 0, None), ('field', 0, None)]),          # the defect's own shape
                 ((2, 1, True), [('field', 3, None), ('denorm',), ('field', 2, 3), ('reset', 5), ('field', 1, None)]),
-                ((None, 0, False), [('field', 4, None), ('field', 5, 7)])]
+                ((None, 0, False), [('field', 4, None), ('field', 5, 7)]),
+                ((5, 0, False), [('field', 9, 5), ('frame', True), ('field', 9, 5), ('frame', False), ('field', 9, 5)]),   # only the frame changes
+                ((5, 3, True), [('field', 3, 4), ('frame', False), ('field', 3, 4), ('field', 3, 7), ('field', 12, 7)])]
     while len(sessions) < n:
         sessions.append(_gen_session(ctx.rng))
     pre = ['From Coq Require Import List. Import ListNotations.', 'From AhrsModel Require Import C15_wmm_object.',
@@ -892,26 +1026,34 @@ def o_sequence(inp):
     c = inp['ctor']
     w = W(dval(c['date']), c['lat'], c['lon'], c['h'], c['frame'])
     cur = c['date']                               # the object's date, as the caller knows it
+    frame = c['frame']
     after = 'ctor-computed' if w.X is not None else 'reset'
+    last = elements(w)                            # every step is observed through all readers (attributes, dictionary, vector)
     for i, call in enumerate(inp['calls']):
         op = call['op']
-        if op == 'reset':
-            w.reset_coefficients(dval(call['date']))
-            cur, after = call['date'], 'reset'
-            continue
-        if op == 'denorm':
-            w.denormalize_coefficients(call.get('phi', 0.3))
-            after = 'call'
+        if op in ('reset', 'denorm', 'set_frame'):
+            if op == 'reset':
+                w.reset_coefficients(dval(call['date']))
+                cur, after = call['date'], 'reset'
+            elif op == 'denorm':
+                w.denormalize_coefficients(call.get('phi', 0.3))
+                after = 'call'
+            else:
+                w.frame = frame = call['frame']
+                after = after if after == 'reset' else 'frame-switch'
+            now = elements(w)
+            if now != last:
+                return {'tag': f'{op}/changes-the-stored-answer', 'observed': now, 'expected': last, 'note': f'step #{i}'}
             continue
         d = call['date']
         w.magnetic_field(call['lat'], call['lon'], call['h'], date=dval(d))
         if d is not None:
             cur = d
-        got = elements(w)
-        ref = fresh_answer(dval(cur), call['lat'], call['lon'], call['h'], c['frame'])
+        got = last = elements(w)
+        ref = fresh_answer(dval(cur), call['lat'], call['lon'], call['h'], frame)
         if not same(got, ref):
             tag = f"magnetic_field/explicit-date-after-{after}" if d is not None else \
-                  ('magnetic_field/date-none-after-call' if after != 'reset' else 'magnetic_field/date-none-after-reset')
+                  ('magnetic_field/date-none-after-reset' if after == 'reset' else f'magnetic_field/date-none-after-{"call" if after != "frame-switch" else after}')
             return {'tag': tag, 'observed': got, 'expected': ref, 'note': f'call #{i} of the sequence; elements X,Y,Z,H,F,I,D,GV'}
         after = 'call'
     return None
@@ -1055,6 +1197,7 @@ def o_two_objects(inp):
     """two objects alive at once: creating or using one never changes the other, and each answers like a fresh object"""
     W = _WMM()
     objs, cur = [], []
+    frames = [c['frame'] for c in inp['ctors']]
     for c in inp['ctors']:
         before = [_public_state(o) for o in objs]
         objs.append(W(dval(c['date']), c['lat'], c['lon'], c['h'], c['frame']))
@@ -1066,6 +1209,9 @@ def o_two_objects(inp):
         k = call['obj']
         others = [(j, _public_state(o)) for j, o in enumerate(objs) if j != k]
         d = call['date']
+        if call.get('frame'):
+            objs[k].frame = call['frame']
+            frames[k] = call['frame']
         objs[k].magnetic_field(call['lat'], call['lon'], call['h'], date=dval(d))
         for j, b in others:
             if _public_state(objs[j]) != b:
@@ -1073,7 +1219,7 @@ def o_two_objects(inp):
         if d is None:
             continue                        # date=None on a used object is o_sequence's business
         got = elements(objs[k])
-        ref = fresh_answer(dval(d), call['lat'], call['lon'], call['h'], inp['ctors'][k]['frame'])
+        ref = fresh_answer(dval(d), call['lat'], call['lon'], call['h'], frames[k])
         if not same(got, ref):
             return {'tag': 'magnetic_field/explicit-date-with-other-objects-alive', 'observed': got, 'expected': ref}
     return None
@@ -1104,6 +1250,8 @@ ORACLES = {'two_objects': o_two_objects, 'types': o_types, 'sequence': o_sequenc
 def _call(name, inp):
     r = core.call_outcome(ORACLES[name], inp)
     if r[0] == 'raise':
+        if r[1] == 'ReadersDisagree':
+            return {'tag': f"{r[2].split(':')[0]}/disagrees-with-attributes", 'observed': r[2]}
         ent = inp.get('entry', 'constructor' if name == 'ctor' else 'magnetic_field')
         return {'tag': f"{ent}/raises-{r[1]}", 'observed': list(r[1:])}
     return r[1]
@@ -1152,13 +1300,41 @@ def search(ctx, scale):
             if u < 0.75:
                 la, lo, h = _rand_place(rng)
                 calls.append({'op': 'field', 'lat': la, 'lon': lo, 'h': h, 'date': _rand_date(rng, True)})
-            elif u < 0.9:
+            elif u < 0.84:
                 calls.append({'op': 'reset', 'date': _rand_date(rng)})
+            elif u < 0.93:
+                calls.append({'op': 'set_frame', 'frame': str(rng.choice(['NED', 'ENU', 'enu']))})
             else:
                 calls.append({'op': 'denorm', 'phi': float(rng.uniform(-1.5, 1.5))})
         inp = {'ctor': ctor, 'calls': calls}
         key = (ctor['frame'], _kind(ctor['date']), tuple((c['op'], _kind(c.get('date')) if c['op'] != 'denorm' else '') for c in calls))
         ctx.check('sequence', inp, _call('sequence', inp), nontrivial_key=key)
+    # the same question repeated on one object after changing EXACTLY ONE argument (frame, height, date, latitude, longitude)
+    for i in range(30 * scale):
+        la, lo, h = _rand_place(rng)
+        d = EDGE_DATES[i % len(EDGE_DATES)] if i % 3 == 0 else _rand_date(rng)
+        fr = 'ENU' if i % 2 else 'NED'
+        ctor = {'date': _rand_date(rng, True), 'lat': 48.13723, 'lon': 11.575508, 'h': 0.521, 'frame': fr} if i % 4 else \
+               {'date': d, 'lat': la, 'lon': lo, 'h': h, 'frame': fr}           # constructor already asked the very question
+        q = {'lat': la, 'lon': lo, 'h': h, 'date': d}
+        calls, kinds = [dict(q, op='field')], []
+        for _ in range(int(rng.integers(2, 6))):
+            what = str(rng.choice(['frame', 'frame', 'h', 'date', 'lat', 'lon', 'same']))
+            kinds.append(what)
+            if what == 'frame':
+                fr = 'NED' if fr.upper() == 'ENU' else 'ENU'
+                calls.append({'op': 'set_frame', 'frame': fr})
+            elif what == 'h':
+                q = dict(q, h=0.0 if (q['h'] != 0 and rng.random() < 0.4) else float(np.round(rng.uniform(0, 50), 1)))
+            elif what == 'date':
+                q = dict(q, date=_rand_date(rng))
+            elif what == 'lat':
+                q = dict(q, lat=float(rng.choice([0.0, 90.0, -90.0])) if rng.random() < 0.4 else float(np.round(rng.uniform(-90, 90), 2)))
+            elif what == 'lon':
+                q = dict(q, lon=float(rng.choice([0.0, 180.0, -180.0])) if rng.random() < 0.4 else float(np.round(rng.uniform(-180, 180), 2)))
+            calls.append(dict(q, op='field'))
+        inp = {'ctor': ctor, 'calls': calls}
+        ctx.check('sequence', inp, _call('sequence', inp), nontrivial_key=('one-change', ctor['frame'], tuple(kinds)))
     # single questions through both entry points
     for i in range(60 * scale):
         la, lo, h = _rand_place(rng)
@@ -1189,6 +1365,8 @@ def search(ctx, scale):
         for _ in range(int(rng.integers(2, 7))):
             la, lo, h = _rand_place(rng)
             calls.append({'obj': int(rng.integers(0, nobj)), 'lat': la, 'lon': lo, 'h': h, 'date': _rand_date(rng, allow_none=True)})
+            if rng.random() < 0.3:
+                calls[-1]['frame'] = str(rng.choice(['NED', 'ENU']))
         inp = {'ctors': ctors, 'calls': calls}
         ctx.check('two_objects', inp, _call('two_objects', inp),
                   nontrivial_key=(tuple(c['frame'] for c in ctors), tuple((c['obj'], _kind(c['date'])) for c in calls)))
